@@ -37,10 +37,29 @@ type sliceBuilder struct {
 	dstType       reflect.Type
 	elemGenerator BuilderGenerator
 	ppContainer   **reflect.Value
+	// The elements can only ever be slices (type T []T, type T []*T, ...), so
+	// there is nothing a scalar could be built into.
+	elemsAreOnlyEverSlices bool
+}
+
+// Follows slice and pointer element types. A chain that never reaches
+// anything else belongs to a self-referential slice type.
+func elemsAreOnlyEverSlices(sliceType reflect.Type) bool {
+	t := sliceType.Elem()
+	for i := 0; i < 64; i++ {
+		switch t.Kind() {
+		case reflect.Slice, reflect.Ptr:
+			t = t.Elem()
+		default:
+			return false
+		}
+	}
+	return true
 }
 
 func newSliceBuilderGenerator(getBuilderGeneratorForType BuilderGeneratorGetter, dstType reflect.Type) BuilderGenerator {
 	builderGenerator := getBuilderGeneratorForType(dstType.Elem())
+	onlyEverSlices := elemsAreOnlyEverSlices(dstType)
 
 	return func(ctx *Context) Builder {
 		container := reflect.MakeSlice(dstType, 0, defaultSliceCap)
@@ -51,6 +70,8 @@ func newSliceBuilderGenerator(getBuilderGeneratorForType BuilderGeneratorGetter,
 			dstType:       dstType,
 			elemGenerator: builderGenerator,
 			ppContainer:   ppContainer,
+
+			elemsAreOnlyEverSlices: onlyEverSlices,
 		}
 	}
 }
@@ -63,12 +84,22 @@ func (_this *sliceBuilder) newElem() reflect.Value {
 	return reflect.New(_this.dstType.Elem()).Elem()
 }
 
+// A new element that a scalar (or array, time, ...) is going to be built into
+// by the element's builder. Without the check, a self-referential slice type
+// would pass the value down from slice builder to slice builder forever.
+func (_this *sliceBuilder) newScalarElem() reflect.Value {
+	if _this.elemsAreOnlyEverSlices {
+		panic(fmt.Errorf("cannot build a value into %v: its elements can only ever be slices", _this.dstType))
+	}
+	return _this.newElem()
+}
+
 func (_this *sliceBuilder) storeValue(value reflect.Value) {
 	**_this.ppContainer = reflect.Append(**_this.ppContainer, value)
 }
 
 func (_this *sliceBuilder) BuildFromNull(ctx *Context, _ reflect.Value) reflect.Value {
-	object := _this.newElem()
+	object := _this.newScalarElem()
 	_this.elemGenerator(ctx).BuildFromNull(ctx, object)
 	if _this.ppContainer != nil {
 		_this.storeValue(object)
@@ -77,105 +108,105 @@ func (_this *sliceBuilder) BuildFromNull(ctx *Context, _ reflect.Value) reflect.
 }
 
 func (_this *sliceBuilder) BuildFromBool(ctx *Context, value bool, _ reflect.Value) reflect.Value {
-	object := _this.newElem()
+	object := _this.newScalarElem()
 	_this.elemGenerator(ctx).BuildFromBool(ctx, value, object)
 	_this.storeValue(object)
 	return object
 }
 
 func (_this *sliceBuilder) BuildFromInt(ctx *Context, value int64, _ reflect.Value) reflect.Value {
-	object := _this.newElem()
+	object := _this.newScalarElem()
 	_this.elemGenerator(ctx).BuildFromInt(ctx, value, object)
 	_this.storeValue(object)
 	return object
 }
 
 func (_this *sliceBuilder) BuildFromUint(ctx *Context, value uint64, _ reflect.Value) reflect.Value {
-	object := _this.newElem()
+	object := _this.newScalarElem()
 	_this.elemGenerator(ctx).BuildFromUint(ctx, value, object)
 	_this.storeValue(object)
 	return object
 }
 
 func (_this *sliceBuilder) BuildFromBigInt(ctx *Context, value *big.Int, _ reflect.Value) reflect.Value {
-	object := _this.newElem()
+	object := _this.newScalarElem()
 	_this.elemGenerator(ctx).BuildFromBigInt(ctx, value, object)
 	_this.storeValue(object)
 	return object
 }
 
 func (_this *sliceBuilder) BuildFromFloat(ctx *Context, value float64, _ reflect.Value) reflect.Value {
-	object := _this.newElem()
+	object := _this.newScalarElem()
 	_this.elemGenerator(ctx).BuildFromFloat(ctx, value, object)
 	_this.storeValue(object)
 	return object
 }
 
 func (_this *sliceBuilder) BuildFromBigFloat(ctx *Context, value *big.Float, _ reflect.Value) reflect.Value {
-	object := _this.newElem()
+	object := _this.newScalarElem()
 	_this.elemGenerator(ctx).BuildFromBigFloat(ctx, value, object)
 	_this.storeValue(object)
 	return object
 }
 
 func (_this *sliceBuilder) BuildFromDecimalFloat(ctx *Context, value compact_float.DFloat, _ reflect.Value) reflect.Value {
-	object := _this.newElem()
+	object := _this.newScalarElem()
 	_this.elemGenerator(ctx).BuildFromDecimalFloat(ctx, value, object)
 	_this.storeValue(object)
 	return object
 }
 
 func (_this *sliceBuilder) BuildFromBigDecimalFloat(ctx *Context, value *apd.Decimal, _ reflect.Value) reflect.Value {
-	object := _this.newElem()
+	object := _this.newScalarElem()
 	_this.elemGenerator(ctx).BuildFromBigDecimalFloat(ctx, value, object)
 	_this.storeValue(object)
 	return object
 }
 
 func (_this *sliceBuilder) BuildFromUID(ctx *Context, value []byte, _ reflect.Value) reflect.Value {
-	object := _this.newElem()
+	object := _this.newScalarElem()
 	_this.elemGenerator(ctx).BuildFromUID(ctx, value, object)
 	_this.storeValue(object)
 	return object
 }
 
 func (_this *sliceBuilder) BuildFromArray(ctx *Context, arrayType events.ArrayType, value []byte, _ reflect.Value) reflect.Value {
-	object := _this.newElem()
+	object := _this.newScalarElem()
 	_this.elemGenerator(ctx).BuildFromArray(ctx, arrayType, value, object)
 	_this.storeValue(object)
 	return object
 }
 
 func (_this *sliceBuilder) BuildFromStringlikeArray(ctx *Context, arrayType events.ArrayType, value string, _ reflect.Value) reflect.Value {
-	object := _this.newElem()
+	object := _this.newScalarElem()
 	_this.elemGenerator(ctx).BuildFromStringlikeArray(ctx, arrayType, value, object)
 	_this.storeValue(object)
 	return object
 }
 
 func (_this *sliceBuilder) BuildFromCustomBinary(ctx *Context, customType uint64, value []byte, _ reflect.Value) reflect.Value {
-	object := _this.newElem()
+	object := _this.newScalarElem()
 	_this.elemGenerator(ctx).BuildFromCustomBinary(ctx, customType, value, object)
 	_this.storeValue(object)
 	return object
 }
 
 func (_this *sliceBuilder) BuildFromCustomText(ctx *Context, customType uint64, value string, _ reflect.Value) reflect.Value {
-	object := _this.newElem()
+	object := _this.newScalarElem()
 	_this.elemGenerator(ctx).BuildFromCustomText(ctx, customType, value, object)
 	_this.storeValue(object)
 	return object
 }
 
 func (_this *sliceBuilder) BuildFromMedia(ctx *Context, mediaType string, data []byte, _ reflect.Value) reflect.Value {
-	object := _this.newElem()
+	object := _this.newScalarElem()
 	_this.elemGenerator(ctx).BuildFromMedia(ctx, mediaType, data, object)
 	_this.storeValue(object)
 	return object
 }
 
 func (_this *sliceBuilder) BuildFromTime(ctx *Context, value compact_time.Time, _ reflect.Value) reflect.Value {
-	object := _this.newElem()
+	object := _this.newScalarElem()
 	_this.elemGenerator(ctx).BuildFromTime(ctx, value, object)
 	_this.storeValue(object)
 	return object
